@@ -378,3 +378,7 @@ fn diff_units_msg(
         }
     )
 }
+
+#[cfg(kani)]
+#[path = "/verif/kani/mathfns.rs"]
+mod kani_verif;
